@@ -56,6 +56,8 @@ def spell_interval(rng, node, a_ns, b_ns, default):
     node["aw"] = [fa.numerator, fa.denominator]; node["bw"] = [fb.numerator, fb.denominator]
     node["au"] = sa; node["bu"] = sb
     node["at"] = lit_text(rng, fa); node["bt"] = lit_text(rng, fb)
+    node["fa"] = str(float(fa)) if fa.denominator != 1 else str(fa.numerator)
+    node["fb"] = str(float(fb)) if fb.denominator != 1 else str(fb.numerator)
     return style
 
 
@@ -117,8 +119,17 @@ def main():
             alts = [(pnum, punit)] + [(pnum * 10 ** (E[punit] - E[u]), u) for u in ("ms", "us", "ns") if E[u] < E[punit] and pnum * 10 ** (E[punit] - E[u]) <= 100000]
             pn2, pu2 = rng.choice(alts)
             written, styles = write_ast(rng, phi, period_ns, default, halfstep=(rng.randrange(nt) if bad and k == 0 else None))
+            cdecl = []
+            if rng.random() < 0.3:      # some bounds given by declared constants (the written unit, if any, follows the name)
+                for j, q in enumerate([q for q in subformulas(written) if q["op"] in TIMED]):
+                    for which in ("a", "b"):
+                        if rng.random() < 0.4:
+                            nm = "c%d%s" % (j, which)
+                            cdecl.append([nm, q["f" + which]])
+                            q[which + "t"] = nm
             o = dt_obj(phi, S, vs, text="out = " + to_text(written, S), written=written,
-                       units={"def": default, "pnum": pn2, "pden": 1, "punit": pu2}, unit=default, set_period=[pn2, pu2, 0.1], styles=styles)
+                       units={"def": default, "pnum": pn2, "pden": 1, "punit": pu2}, unit=default, set_period=[pn2, pu2, 0.1], styles=styles,
+                       consts=cdecl)
             objs.append(o)
         h = horizon(phi)
         N = rng.choice([2, 3, 5, 8]) + (h if kind == "past" else 0)
